@@ -12,6 +12,7 @@ import MainlineModel.Lemmas.ActorLemmas
 import MainlineModel.Props.C08
 import MainlineModel.Props.C20
 import MainlineModel.Props.C09
+import MainlineModel.Lemmas.ShapeLemmas
 namespace Mainline.Props.C06
 open Mainline Mainline.Actor
 
@@ -82,31 +83,30 @@ theorem releaseGet_spec (a : Actor) (done : List (Id × List Node)) :
   | nil => exact ⟨rfl, rfl, fun t => by simp⟩
   | cons d ds ih =>
     simp only [List.foldl_cons]
-    cases hg : alGet a.getSenders d.1 with
-    | none =>
-      simp only
-      obtain ⟨i1, i2, i3⟩ := ih a
-      refine ⟨i1, i2, ?_⟩
-      intro t
-      rw [i3 t]
-      simp only [List.map_cons, List.mem_cons, not_or]
-      constructor
-      · rintro ⟨h1, h2⟩
-        refine ⟨h1, ?_, h2⟩
-        intro e; subst e
-        unfold hasKey at h1; rw [hg] at h1; cases h1
-      · rintro ⟨h1, _, h3⟩; exact ⟨h1, h3⟩
-    | some senders =>
-      simp only
-      obtain ⟨i1, i2, i3⟩ := ih { a with getSenders := alRemove a.getSenders d.1,
-        events := a.events ++ senders.map (closingEvent d.2) }
-      refine ⟨i1, i2, ?_⟩
-      intro t
-      rw [i3 t]
-      simp only [hasKey_alRemove, List.map_cons, List.mem_cons, not_or]
-      constructor
-      · rintro ⟨⟨h1, h2⟩, h3⟩; exact ⟨h2, h1, h3⟩
-      · rintro ⟨h1, h2, h3⟩; exact ⟨⟨h2, h1⟩, h3⟩
+    obtain ⟨i1, i2, i3⟩ := ih (a.releaseGetOne d)
+    have h1 : (a.releaseGetOne d).core = a.core ∧ (a.releaseGetOne d).putSenders = a.putSenders ∧
+        ∀ t, hasKey (a.releaseGetOne d).getSenders t ↔ (hasKey a.getSenders t ∧ t ≠ d.1) := by
+      unfold releaseGetOne
+      cases hg : alGet a.getSenders d.1 with
+      | none =>
+        refine ⟨rfl, rfl, ?_⟩
+        intro t
+        constructor
+        · intro h
+          refine ⟨h, ?_⟩
+          intro e; subst e
+          unfold hasKey at h; rw [hg] at h; cases h
+        · exact fun h => h.1
+      | some senders =>
+        refine ⟨rfl, rfl, ?_⟩
+        intro t
+        simp only [hasKey_alRemove]
+        exact ⟨fun h => ⟨h.2, h.1⟩, fun h => ⟨h.2, h.1⟩⟩
+    refine ⟨i1.trans h1.1, i2.trans h1.2.1, ?_⟩
+    intro t
+    rw [i3 t, h1.2.2 t]
+    simp only [List.map_cons, List.mem_cons, not_or]
+    exact ⟨fun h => ⟨h.1.1, h.1.2, h.2⟩, fun h => ⟨⟨h.1, h.2.1⟩, h.2.2⟩⟩
 
 theorem releasePut_spec (a : Actor) (done : List (Id × Option PutErr)) :
     (a.releasePutCallers done).core = a.core ∧ (a.releasePutCallers done).getSenders = a.getSenders ∧
@@ -116,30 +116,912 @@ theorem releasePut_spec (a : Actor) (done : List (Id × Option PutErr)) :
   | nil => exact ⟨rfl, rfl, fun t => by simp⟩
   | cons d ds ih =>
     simp only [List.foldl_cons]
-    cases hg : alGet a.putSenders d.1 with
+    obtain ⟨i1, i2, i3⟩ := ih (a.releasePutOne d)
+    have h1 : (a.releasePutOne d).core = a.core ∧ (a.releasePutOne d).getSenders = a.getSenders ∧
+        ∀ t, hasKey (a.releasePutOne d).putSenders t ↔ (hasKey a.putSenders t ∧ t ≠ d.1) := by
+      unfold releasePutOne
+      cases hg : alGet a.putSenders d.1 with
+      | none =>
+        refine ⟨rfl, rfl, ?_⟩
+        intro t
+        constructor
+        · intro h
+          refine ⟨h, ?_⟩
+          intro e; subst e
+          unfold hasKey at h; rw [hg] at h; cases h
+        · exact fun h => h.1
+      | some cs =>
+        refine ⟨rfl, rfl, ?_⟩
+        intro t
+        simp only [hasKey_alRemove]
+        exact ⟨fun h => ⟨h.2, h.1⟩, fun h => ⟨h.2, h.1⟩⟩
+    refine ⟨i1.trans h1.1, i2.trans h1.2.1, ?_⟩
+    intro t
+    rw [i3 t, h1.2.2 t]
+    simp only [List.map_cons, List.mem_cons, not_or]
+    exact ⟨fun h => ⟨h.1.1, h.1.2, h.2⟩, fun h => ⟨⟨h.1, h.2.1⟩, h.2.2⟩⟩
+
+/-- `cleanup_done_queries` unregisters exactly the finished lookups and puts -/
+theorem cleanupOneLookup_spec (acc : Core × Option Addr) (d : Id × List Node) :
+    (cleanupOneLookup acc d).1.puts = acc.1.puts ∧
+    ∀ t, hasKey (cleanupOneLookup acc d).1.iter t ↔ (hasKey acc.1.iter t ∧ t ≠ d.1) := by
+  unfold cleanupOneLookup
+  cases hg : alGet acc.1.iter d.1 with
+  | none =>
+    refine ⟨rfl, ?_⟩
+    intro t
+    constructor
+    · intro h
+      refine ⟨h, ?_⟩
+      intro e; subst e
+      unfold hasKey at h; rw [hg] at h; cases h
+    · exact fun h => h.1
+  | some q =>
+    have hc : ∀ (c : Core) (q : IterQuery) (ns : List Node),
+        (updateAddressVotes (cacheQuery c q ns) q).1.puts = c.puts ∧
+        (updateAddressVotes (cacheQuery c q ns) q).1.iter = c.iter := by
+      intro c q ns
+      have h1 : (cacheQuery c q ns).puts = c.puts ∧ (cacheQuery c q ns).iter = c.iter := by
+        have he : (evictIfFull c).puts = c.puts ∧ (evictIfFull c).iter = c.iter := by
+          unfold evictIfFull
+          split
+          · unfold decrementCached
+            split
+            · split
+              · exact ⟨rfl, rfl⟩
+              · split <;> exact ⟨rfl, rfl⟩
+            · exact ⟨rfl, rfl⟩
+          · exact ⟨rfl, rfl⟩
+        unfold cacheQuery
+        split
+        · exact he
+        · unfold countEntry decrementCached
+          split <;> (try split) <;> (try split) <;> (try split) <;> (try split) <;> exact he
+      unfold updateAddressVotes
+      split
+      · split
+        · exact h1
+        · exact h1
+      · exact h1
+    simp only
+    obtain ⟨c1, c2⟩ := hc { acc.1 with iter := alRemove acc.1.iter d.1 } q d.2
+    split <;> (refine ⟨c1, ?_⟩; intro t; rw [c2]; simp only [hasKey_alRemove];
+               exact ⟨fun h => ⟨h.2, h.1⟩, fun h => ⟨h.2, h.1⟩⟩)
+
+theorem cleanupLookups_spec (done : List (Id × List Node)) (acc : Core × Option Addr) :
+    (done.foldl cleanupOneLookup acc).1.puts = acc.1.puts ∧
+    ∀ t, hasKey (done.foldl cleanupOneLookup acc).1.iter t ↔ (hasKey acc.1.iter t ∧ t ∉ done.map (·.1)) := by
+  induction done generalizing acc with
+  | nil => exact ⟨rfl, fun t => by simp⟩
+  | cons d ds ih =>
+    simp only [List.foldl_cons]
+    obtain ⟨i1, i2⟩ := ih (cleanupOneLookup acc d)
+    obtain ⟨h1, h2⟩ := cleanupOneLookup_spec acc d
+    refine ⟨i1.trans h1, ?_⟩
+    intro t
+    rw [i2 t, h2 t]
+    simp only [List.map_cons, List.mem_cons, not_or]
+    exact ⟨fun h => ⟨h.1.1, h.1.2, h.2⟩, fun h => ⟨⟨h.1, h.2.1⟩, h.2.2⟩⟩
+
+theorem removePuts_spec (done : List (Id × Option PutErr)) (c : Core) :
+    (done.foldl removePut c).iter = c.iter ∧
+    (∀ t, t ∉ done.map (·.1) → alGet (done.foldl removePut c).puts t = alGet c.puts t) ∧
+    (∀ t, t ∈ done.map (·.1) → alGet (done.foldl removePut c).puts t = none) := by
+  induction done generalizing c with
+  | nil => exact ⟨rfl, fun t _ => rfl, fun t h => by simp at h⟩
+  | cons d ds ih =>
+    simp only [List.foldl_cons]
+    obtain ⟨i1, i2, i3⟩ := ih (removePut c d)
+    refine ⟨i1, ?_, ?_⟩
+    · intro t ht
+      simp only [List.map_cons, List.mem_cons, not_or] at ht
+      rw [i2 t ht.2]
+      exact alGet_alRemove_other c.puts d.1 t ht.1
+    · intro t ht
+      by_cases hm : t ∈ ds.map (·.1)
+      · exact i3 t hm
+      · simp only [List.map_cons, List.mem_cons] at ht
+        rcases ht with rfl | ht
+        · rw [i2 _ hm]; exact alGet_alRemove_self c.puts d.1
+        · exact absurd ht hm
+
+theorem cleanupDone_spec (c : Core) (di : List (Id × List Node)) (dp : List (Id × Option PutErr)) :
+    (∀ t, hasKey (cleanupDone c di dp).1.iter t ↔ (hasKey c.iter t ∧ t ∉ di.map (·.1))) ∧
+    (∀ t, t ∉ dp.map (·.1) → alGet (cleanupDone c di dp).1.puts t = alGet c.puts t) ∧
+    (∀ t, t ∈ dp.map (·.1) → alGet (cleanupDone c di dp).1.puts t = none) := by
+  unfold cleanupDone
+  obtain ⟨l1, l2⟩ := cleanupLookups_spec di (c, none)
+  obtain ⟨r1, r2, r3⟩ := removePuts_spec dp (di.foldl cleanupOneLookup (c, none)).1
+  refine ⟨?_, ?_, ?_⟩
+  · intro t; simp only; rw [r1]; exact l2 t
+  · intro t ht; simp only; rw [r2 t ht, l1]
+  · intro t ht; exact r3 t ht
+
+/-- whenever `PutQuery::start` reports success the put has requests out -/
+theorem start_ok_started (q : PutQuery) (sock : Inflight) (closest : List Node) (now : Nat)
+    (h : (q.start sock closest now).2.2.1 = .ok ()) : (q.start sock closest now).1.inflight ≠ [] := by
+  unfold PutQuery.start at h ⊢
+  split at h
+  · rename_i hs
+    simp only [hs, ite_true]
+    simpa [PutQuery.started] using hs
+  · rename_i hs
+    simp only [hs, Bool.false_eq_true, ite_false] at h ⊢
+    split at h
+    · cases h
+    · rename_i hc
+      simp only [hc, Bool.false_eq_true, ite_false] at h ⊢
+      split at h
+      · cases h
+      · rename_i he
+        simp only [he, Bool.false_eq_true, ite_false]
+        simpa using he
+
+theorem startPut_frame (a : Actor) (e : PutEntry) (closest : List Node) (now : Nat) :
+    (startPut a e closest now).1.core.iter = a.core.iter ∧ (startPut a e closest now).1.core.puts = a.core.puts ∧
+    (startPut a e closest now).1.getSenders = a.getSenders ∧ (startPut a e closest now).1.putSenders = a.putSenders ∧
+    (startPut a e closest now).2.1.q = (e.q.start a.sock closest now).1 ∧
+    (startPut a e closest now).2.2 = (e.q.start a.sock closest now).2.2.1 := by
+  unfold startPut
+  have hs : ∀ (b : Actor) (spec : PutSpec) (l : List ((Addr × Bytes) × Nat)),
+      (sendPuts b spec l).core.iter = b.core.iter ∧ (sendPuts b spec l).core.puts = b.core.puts ∧
+      (sendPuts b spec l).getSenders = b.getSenders ∧ (sendPuts b spec l).putSenders = b.putSenders := by
+    intro b spec l
+    unfold sendPuts
+    induction l generalizing b with
+    | nil => exact ⟨rfl, rfl, rfl, rfl⟩
+    | cons x xs ih =>
+      simp only [List.foldl_cons]
+      obtain ⟨i1, i2, i3, i4⟩ := ih _
+      exact ⟨i1, i2, i3, i4⟩
+  obtain ⟨h1, h2, h3, h4⟩ := hs { a with sock := (e.q.start a.sock closest now).2.1 } e.spec
+    ((e.q.start a.sock closest now).2.2.2.zip ((e.q.start a.sock closest now).1.inflight.drop e.q.inflight.length))
+  exact ⟨h1, h2, h3, h4, rfl, rfl⟩
+
+/-- one finished lookup: the put waiting on it is started or reported failed; nothing else moves -/
+theorem startPutOne_spec (now : Nat) (acc : Actor × List (Id × Option PutErr)) (d : Id × List Node) :
+    (startPutOne now acc d).1.core.iter = acc.1.core.iter ∧
+    (startPutOne now acc d).1.getSenders = acc.1.getSenders ∧
+    (startPutOne now acc d).1.putSenders = acc.1.putSenders ∧
+    (∀ t, hasKey (startPutOne now acc d).1.core.puts t ↔ hasKey acc.1.core.puts t) ∧
+    (∀ t, t ≠ d.1 → alGet (startPutOne now acc d).1.core.puts t = alGet acc.1.core.puts t) ∧
+    (∀ e', alGet (startPutOne now acc d).1.core.puts d.1 = some e' →
+        e'.q.inflight ≠ [] ∨ d.1 ∈ (startPutOne now acc d).2.map (·.1)) ∧
+    (∀ t, t ∈ acc.2.map (·.1) → t ∈ (startPutOne now acc d).2.map (·.1)) := by
+  unfold startPutOne
+  cases hg : alGet acc.1.core.puts d.1 with
+  | none =>
+    refine ⟨rfl, rfl, rfl, fun t => Iff.rfl, fun t _ => rfl, ?_, fun t h => h⟩
+    intro e' he'
+    rw [hg] at he'; cases he'
+  | some e =>
+    obtain ⟨f1, f2, f3, f4, f5, f6⟩ := startPut_frame acc.1 e d.2 now
+    simp only
+    have hk : ∀ t, hasKey (alSet (startPut acc.1 e d.2 now).1.core.puts d.1 (startPut acc.1 e d.2 now).2.1) t ↔
+        hasKey acc.1.core.puts t := by
+      intro t
+      rw [hasKey_alSet, f2]
+      constructor
+      · rintro (rfl | h)
+        · unfold hasKey; rw [hg]; rfl
+        · exact h
+      · exact fun h => Or.inr h
+    have ho : ∀ t, t ≠ d.1 →
+        alGet (alSet (startPut acc.1 e d.2 now).1.core.puts d.1 (startPut acc.1 e d.2 now).2.1) t =
+          alGet acc.1.core.puts t := by
+      intro t ht; rw [alGet_alSet_other _ _ _ _ ht, f2]
+    cases hr : (startPut acc.1 e d.2 now).2.2 with
+    | error err =>
+      refine ⟨f1, f3, f4, hk, ho, ?_, ?_⟩
+      · intro e' _
+        right
+        simp
+      · intro t ht
+        simp only [List.map_append, List.mem_append]
+        exact Or.inl ht
+    | ok u =>
+      refine ⟨f1, f3, f4, hk, ho, ?_, fun t h => h⟩
+      intro e' he'
+      left
+      rw [alGet_alSet_self] at he'
+      injection he' with he'
+      rw [← he', f5]
+      apply start_ok_started
+      rw [← f6, hr]
+
+theorem startPuts_spec (now : Nat) (di : List (Id × List Node)) (acc : Actor × List (Id × Option PutErr)) :
+    (di.foldl (startPutOne now) acc).1.core.iter = acc.1.core.iter ∧
+    (di.foldl (startPutOne now) acc).1.getSenders = acc.1.getSenders ∧
+    (di.foldl (startPutOne now) acc).1.putSenders = acc.1.putSenders ∧
+    (∀ t, hasKey (di.foldl (startPutOne now) acc).1.core.puts t ↔ hasKey acc.1.core.puts t) ∧
+    (∀ t, t ∉ di.map (·.1) → alGet (di.foldl (startPutOne now) acc).1.core.puts t = alGet acc.1.core.puts t) ∧
+    (∀ t, t ∈ di.map (·.1) → ∀ e', alGet (di.foldl (startPutOne now) acc).1.core.puts t = some e' →
+        e'.q.inflight ≠ [] ∨ t ∈ (di.foldl (startPutOne now) acc).2.map (·.1)) ∧
+    (∀ t, t ∈ acc.2.map (·.1) → t ∈ (di.foldl (startPutOne now) acc).2.map (·.1)) := by
+  induction di generalizing acc with
+  | nil =>
+    refine ⟨rfl, rfl, rfl, fun t => Iff.rfl, fun t _ => rfl, ?_, fun t h => h⟩
+    intro t ht; simp at ht
+  | cons d ds ih =>
+    simp only [List.foldl_cons]
+    obtain ⟨i1, i2, i3, i4, i5, i6, i7⟩ := ih (startPutOne now acc d)
+    obtain ⟨h1, h2, h3, h4, h5, h6, h7⟩ := startPutOne_spec now acc d
+    refine ⟨i1.trans h1, i2.trans h2, i3.trans h3, fun t => (i4 t).trans (h4 t), ?_, ?_, fun t h => i7 t (h7 t h)⟩
+    · intro t ht
+      simp only [List.map_cons, List.mem_cons, not_or] at ht
+      rw [i5 t ht.2, h5 t ht.1]
+    · intro t ht e' he'
+      by_cases hm : t ∈ ds.map (·.1)
+      · exact i6 t hm e' he'
+      · simp only [List.map_cons, List.mem_cons] at ht
+        rcases ht with rfl | ht
+        · rw [i5 _ hm] at he'
+          rcases h6 e' he' with h | h
+          · exact Or.inl h
+          · exact Or.inr (i7 _ h)
+        · exact absurd ht hm
+
+/-- `visit_closest` sends requests; no table gains or loses a key -/
+theorem visitClosest_frame (a : Actor) (target : Id) (now : Nat) :
+    (a.visitClosest target now).core.puts = a.core.puts ∧
+    (a.visitClosest target now).getSenders = a.getSenders ∧
+    (a.visitClosest target now).putSenders = a.putSenders ∧
+    (∀ t, hasKey (a.visitClosest target now).core.iter t ↔ hasKey a.core.iter t) := by
+  unfold visitClosest
+  cases hg : alGet a.core.iter target with
+  | none => exact ⟨rfl, rfl, rfl, fun t => Iff.rfl⟩
+  | some q =>
+    simp only
+    obtain ⟨hc, _⟩ := visitAll_core a q q.closestCandidates now
+    have hsend : ∀ (b : Actor) (q : IterQuery) (tos : List Addr),
+        (b.visitAll q tos now).1.getSenders = b.getSenders ∧ (b.visitAll q tos now).1.putSenders = b.putSenders := by
+      intro b q tos
+      unfold visitAll
+      induction tos generalizing b q with
+      | nil => exact ⟨rfl, rfl⟩
+      | cons x xs ih =>
+        simp only [List.foldl_cons]
+        exact ih _ _
+    obtain ⟨s1, s2⟩ := hsend a q q.closestCandidates
+    refine ⟨by rw [hc], s1, s2, ?_⟩
+    intro t
+    rw [hasKey_alSet, hc]
+    constructor
+    · rintro (rfl | h)
+      · unfold hasKey; rw [hg]; rfl
+      · exact h
+    · exact fun h => Or.inr h
+
+theorem visitClosest_fold_frame (l : List (Id × IterQuery)) (a : Actor) (now : Nat) :
+    (l.foldl (fun (a : Actor) (p : Id × IterQuery) => a.visitClosest p.1 now) a).core.puts = a.core.puts ∧
+    (l.foldl (fun (a : Actor) (p : Id × IterQuery) => a.visitClosest p.1 now) a).getSenders = a.getSenders ∧
+    (l.foldl (fun (a : Actor) (p : Id × IterQuery) => a.visitClosest p.1 now) a).putSenders = a.putSenders ∧
+    (∀ t, hasKey (l.foldl (fun (a : Actor) (p : Id × IterQuery) => a.visitClosest p.1 now) a).core.iter t ↔
+      hasKey a.core.iter t) := by
+  induction l generalizing a with
+  | nil => exact ⟨rfl, rfl, rfl, fun t => Iff.rfl⟩
+  | cons p ps ih =>
+    simp only [List.foldl_cons]
+    obtain ⟨i1, i2, i3, i4⟩ := ih (a.visitClosest p.1 now)
+    obtain ⟨h1, h2, h3, h4⟩ := visitClosest_frame a p.1 now
+    exact ⟨i1.trans h1, i2.trans h2, i3.trans h3, fun t => (i4 t).trans (h4 t)⟩
+
+theorem visitClosestAll_frame (a : Actor) (now : Nat) :
+    (a.visitClosestAll now).core.puts = a.core.puts ∧
+    (a.visitClosestAll now).getSenders = a.getSenders ∧
+    (a.visitClosestAll now).putSenders = a.putSenders ∧
+    (∀ t, hasKey (a.visitClosestAll now).core.iter t ↔ hasKey a.core.iter t) :=
+  visitClosest_fold_frame a.core.iter a now
+
+/-! #### starting a lookup -/
+
+theorem visitAll_senders (b : Actor) (q : IterQuery) (tos : List Addr) (now : Nat) :
+    (b.visitAll q tos now).1.getSenders = b.getSenders ∧ (b.visitAll q tos now).1.putSenders = b.putSenders := by
+  unfold visitAll
+  induction tos generalizing b q with
+  | nil => exact ⟨rfl, rfl⟩
+  | cons x xs ih =>
+    simp only [List.foldl_cons]
+    exact ih _ _
+
+/-- `startLookup` registers a lookup for the target and removes nothing -/
+theorem startLookup_frame (a : Actor) (k : GetKind) (target : Id) (extra : List Addr) (now : Nat) :
+    (a.startLookup k target extra now).core.puts = a.core.puts ∧
+    (a.startLookup k target extra now).getSenders = a.getSenders ∧
+    (a.startLookup k target extra now).putSenders = a.putSenders ∧
+    (∀ t, hasKey a.core.iter t → hasKey (a.startLookup k target extra now).core.iter t) ∧
+    hasKey (a.startLookup k target extra now).core.iter target := by
+  obtain ⟨_, _, _, c4, c5, _⟩ := createIter_fields a.core k target extra now
+  unfold startLookup
+  split
+  · rename_i core q toVisit hm
+    rw [hm] at c4 c5
+    simp only at c4 c5
+    obtain ⟨s1, s2⟩ := visitAll_senders { a with core := core } q toVisit now
+    refine ⟨c5, s1, s2, ?_, ?_⟩
+    · intro t ht
+      simp only [hasKey_alSet, c4]
+      exact Or.inr ht
+    · simp only [hasKey_alSet]; exact Or.inl trivial
+  · rename_i core hm
+    rw [hm] at c4 c5
+    simp only at c4 c5
+    refine ⟨c5, rfl, rfl, fun t ht => by rw [c4]; exact ht, ?_⟩
+    -- no new lookup is only returned when one is already registered
+    have : hasKey a.core.iter target := by
+      unfold createIterativeQuery at hm
+      split at hm
+      · rename_i h; exact h
+      · simp at hm
+    simp only [c4]; exact this
+
+theorem get_frame (a : Actor) (k : GetKind) (target : Id) (extra : List Addr) (now : Nat) :
+    (a.get k target extra now).1.core.puts = a.core.puts ∧
+    (a.get k target extra now).1.getSenders = a.getSenders ∧
+    (a.get k target extra now).1.putSenders = a.putSenders ∧
+    (∀ t, hasKey a.core.iter t → hasKey (a.get k target extra now).1.core.iter t) ∧
+    hasKey (a.get k target extra now).1.core.iter target := by
+  unfold Actor.get
+  cases hg : alGet a.core.iter target with
+  | some q =>
+    refine ⟨rfl, rfl, rfl, fun t h => h, ?_⟩
+    unfold hasKey; rw [hg]; rfl
+  | none => exact startLookup_frame a k target extra now
+
+theorem populate_frame (a : Actor) (now : Nat) :
+    (a.populate now).core.puts = a.core.puts ∧ (a.populate now).getSenders = a.getSenders ∧
+    (a.populate now).putSenders = a.putSenders ∧
+    (∀ t, hasKey a.core.iter t → hasKey (a.populate now).core.iter t) := by
+  unfold populate
+  split
+  · exact ⟨rfl, rfl, rfl, fun t h => h⟩
+  · obtain ⟨g1, g2, g3, g4, _⟩ := get_frame a .findNode a.id [] now
+    exact ⟨g1, g2, g3, g4⟩
+
+/-! #### incoming messages -/
+
+theorem handleRequest_frame (c : Core) (env : Env) (src : Addr) (ro : Bool) (version : Option Bytes) (req : Request) :
+    (handleRequest c env src ro version req).1.iter = c.iter ∧
+    (handleRequest c env src ro version req).1.puts = c.puts := by
+  have h1 : (maybeAddNodeFromRequest c src version ro req env.now).iter = c.iter ∧
+      (maybeAddNodeFromRequest c src version ro req env.now).puts = c.puts := by
+    unfold maybeAddNodeFromRequest
+    split
+    · split
+      · unfold addRequester
+        split
+        · split <;> exact ⟨rfl, rfl⟩
+        · split <;> exact ⟨rfl, rfl⟩
+      · exact ⟨rfl, rfl⟩
+    · exact ⟨rfl, rfl⟩
+  have h2 : ∀ c' : Core, (verifySelfPing c' src req env.now).1.iter = c'.iter ∧
+      (verifySelfPing c' src req env.now).1.puts = c'.puts := by
+    intro c'
+    unfold verifySelfPing
+    split
+    · split
+      · split <;> exact ⟨rfl, rfl⟩
+      · exact ⟨rfl, rfl⟩
+    · exact ⟨rfl, rfl⟩
+  unfold handleRequest
+  obtain ⟨a1, a2⟩ := h2 (maybeAddNodeFromRequest c src version ro req env.now)
+  simp only
+  split
+  · exact ⟨a1.trans h1.1, a2.trans h1.2⟩
+  · exact ⟨a1.trans h1.1, a2.trans h1.2⟩
+
+theorem putStep_inflight (q : PutQuery) (m : MessageType) : (putStep q m).inflight = q.inflight := by
+  unfold putStep
+  split
+  · rfl
+  · exact (C08.applyEv_fields q (.err _)).1
+  · rfl
+
+theorem addResponder_frame (c : Core) (now : Nat) (src : Addr) (m : Message) :
+    (addResponder c now src m).iter = c.iter ∧ (addResponder c now src m).puts = c.puts := by
+  unfold addResponder
+  split
+  · split <;> exact ⟨rfl, rfl⟩
+  · exact ⟨rfl, rfl⟩
+
+/-- a response changes no table's set of keys, and no put's list of requests -/
+theorem handleResponse_frame (c : Core) (env : Env) (src : Addr) (m : Message) :
+    (∀ t, hasKey (handleResponse c env src m).1.iter t ↔ hasKey c.iter t) ∧
+    (∀ t, hasKey (handleResponse c env src m).1.puts t ↔ hasKey c.puts t) ∧
+    (∀ t e', alGet (handleResponse c env src m).1.puts t = some e' → e'.q.inflight = [] →
+      alGet c.puts t = some e') := by
+  unfold handleResponse
+  split
+  · exact ⟨fun t => Iff.rfl, fun t => Iff.rfl, fun t e' h _ => h⟩
+  · split
+    · rename_i target e hf
+      have hmem : (target, e) ∈ c.puts := List.mem_of_find?_eq_some hf
+      have hk : hasKey c.puts target := hasKey_of_mem c.puts (target, e) hmem
+      refine ⟨fun t => Iff.rfl, ?_, ?_⟩
+      · intro t
+        simp only [hasKey_alSet]
+        constructor
+        · rintro (rfl | h)
+          · exact hk
+          · exact h
+        · exact fun h => Or.inr h
+      · intro t e' he' hempty
+        simp only at he'
+        by_cases ht : t = target
+        · subst ht
+          rw [alGet_alSet_self] at he'
+          injection he' with he'
+          -- the put that owns the transaction id has requests out: it is not an unstarted put
+          exfalso
+          have hin : e.q.isInflight m.tid.toNat = true := by
+            have := List.find?_some hf; simpa using this
+          rw [← he'] at hempty
+          simp only [putStep_inflight] at hempty
+          simp [PutQuery.isInflight, hempty] at hin
+        · rw [alGet_alSet_other _ _ _ _ ht] at he'
+          exact he'
+    · split
+      · rename_i target q hf
+        have hmem : (target, q) ∈ c.iter := List.mem_of_find?_eq_some hf
+        have hk : hasKey c.iter target := hasKey_of_mem c.iter (target, q) hmem
+        have hit : ∀ t, hasKey (alSet c.iter target (lookupStep q env src m).1) t ↔ hasKey c.iter t := by
+          intro t
+          rw [hasKey_alSet]
+          constructor
+          · rintro (rfl | h)
+            · exact hk
+            · exact h
+          · exact fun h => Or.inr h
+        split
+        · obtain ⟨r1, r2⟩ := addResponder_frame { c with iter := alSet c.iter target (lookupStep q env src m).1 } env.now src m
+          refine ⟨fun t => by rw [r1]; exact hit t, fun t => by rw [r2], fun t e' h _ => by rw [r2] at h; exact h⟩
+        · exact ⟨hit, fun t => Iff.rfl, fun t e' h _ => h⟩
+      · split
+        · obtain ⟨r1, r2⟩ := addResponder_frame c env.now src m
+          exact ⟨fun t => by rw [r1], fun t => by rw [r2], fun t e' h _ => by rw [r2] at h; exact h⟩
+        · exact ⟨fun t => Iff.rfl, fun t => Iff.rfl, fun t e' h _ => h⟩
+
+theorem sendReply_frame (a : Actor) (src : Addr) (tid : UInt32) (r : Option Reply) :
+    (a.sendReply src tid r).core = a.core ∧ (a.sendReply src tid r).getSenders = a.getSenders ∧
+    (a.sendReply src tid r).putSenders = a.putSenders := by
+  unfold sendReply
+  split <;> exact ⟨rfl, rfl, rfl⟩
+
+/-- handling a datagram parks or releases nobody, unregisters no lookup, and leaves every put's
+    registration (and every unstarted put) as it was -/
+theorem handleIncoming_frame (a : Actor) (env : Env) (handed : Option (Message × Addr)) :
+    (a.handleIncoming env handed).1.getSenders = a.getSenders ∧
+    (a.handleIncoming env handed).1.putSenders = a.putSenders ∧
+    (∀ t, hasKey a.core.iter t → hasKey (a.handleIncoming env handed).1.core.iter t) ∧
+    (∀ t, hasKey (a.handleIncoming env handed).1.core.puts t ↔ hasKey a.core.puts t) ∧
+    (∀ t e', alGet (a.handleIncoming env handed).1.core.puts t = some e' → e'.q.inflight = [] →
+      alGet a.core.puts t = some e') := by
+  unfold handleIncoming
+  cases handed with
+  | none => exact ⟨rfl, rfl, fun t h => h, fun t => Iff.rfl, fun t e' h _ => h⟩
+  | some p =>
+    obtain ⟨m, src⟩ := p
+    simp only
+    have hresp : ∀ c' v, (c', v) = handleResponse a.core env src m →
+        ({ a with core := c' } : Actor).getSenders = a.getSenders ∧ ({ a with core := c' } : Actor).putSenders = a.putSenders ∧
+        (∀ t, hasKey a.core.iter t → hasKey c'.iter t) ∧ (∀ t, hasKey c'.puts t ↔ hasKey a.core.puts t) ∧
+        (∀ t e', alGet c'.puts t = some e' → e'.q.inflight = [] → alGet a.core.puts t = some e') := by
+      intro c' v hcv
+      obtain ⟨h1, h2, h3⟩ := handleResponse_frame a.core env src m
+      rw [← hcv] at h1 h2 h3
+      exact ⟨rfl, rfl, fun t ht => (h1 t).2 ht, h2, h3⟩
+    cases hm : m.mtype with
+    | request req =>
+      simp only
+      obtain ⟨r1, r2⟩ := handleRequest_frame a.core env src m.readOnly m.version req
+      obtain ⟨b1, b2, b3⟩ := sendReply_frame { a with core := (handleRequest a.core env src m.readOnly m.version req).1 }
+        src m.tid (handleRequest a.core env src m.readOnly m.version req).2.1
+      unfold handleIncomingRequest
+      split
+      · obtain ⟨p1, p2, p3, p4⟩ := populate_frame (sendReply { a with core := (handleRequest a.core env src m.readOnly m.version req).1 }
+          src m.tid (handleRequest a.core env src m.readOnly m.version req).2.1) env.now
+        refine ⟨p2.trans b2, p3.trans b3, ?_, ?_, ?_⟩
+        · intro t ht; apply p4; rw [b1]; simp only; rw [r1]; exact ht
+        · intro t; rw [p1, b1]; simp only; rw [r2]
+        · intro t e' h _; rw [p1, b1] at h; simp only at h; rw [r2] at h; exact h
+      · refine ⟨b2, b3, ?_, ?_, ?_⟩
+        · intro t ht; rw [b1]; simp only; rw [r1]; exact ht
+        · intro t; rw [b1]; simp only; rw [r2]
+        · intro t e' h _; rw [b1] at h; simp only at h; rw [r2] at h; exact h
+    | response r => exact hresp _ _ rfl
+    | error e => exact hresp _ _ rfl
+
+theorem recvPhase_frame (a : Actor) (now : Nat) (dgram : Option (Message × Addr)) :
+    (a.recvPhase now dgram).1.core = a.core ∧ (a.recvPhase now dgram).1.getSenders = a.getSenders ∧
+    (a.recvPhase now dgram).1.putSenders = a.putSenders := by
+  unfold recvPhase
+  cases dgram with
+  | none => exact ⟨rfl, rfl, rfl⟩
+  | some p => exact ⟨rfl, rfl, rfl⟩
+
+theorem forwardValue_frame (a : Actor) (v : Option (Id × Value)) :
+    (a.forwardValue v).core = a.core ∧ (a.forwardValue v).getSenders = a.getSenders ∧
+    (a.forwardValue v).putSenders = a.putSenders := by
+  unfold forwardValue
+  split
+  · split <;> exact ⟨rfl, rfl, rfl⟩
+  · exact ⟨rfl, rfl, rfl⟩
+
+/-! ### the invariant is kept by the tick -/
+
+theorem preDone_frame (a : Actor) (env : Env) (dgram : Option (Message × Addr)) :
+    (a.preDone env dgram).getSenders = a.getSenders ∧ (a.preDone env dgram).putSenders = a.putSenders ∧
+    (∀ t, hasKey a.core.iter t → hasKey (a.preDone env dgram).core.iter t) ∧
+    (∀ t, hasKey (a.preDone env dgram).core.puts t ↔ hasKey a.core.puts t) ∧
+    (∀ t e', alGet (a.preDone env dgram).core.puts t = some e' → e'.q.inflight = [] →
+      alGet a.core.puts t = some e') := by
+  unfold preDone
+  obtain ⟨r1, r2, r3⟩ := recvPhase_frame a env.now dgram
+  obtain ⟨h1, h2, h3, h4, h5⟩ := handleIncoming_frame (a.recvPhase env.now dgram).1 env (a.recvPhase env.now dgram).2
+  obtain ⟨f1, f2, f3⟩ := forwardValue_frame (handleIncoming (a.recvPhase env.now dgram).1 env (a.recvPhase env.now dgram).2).1
+    (handleIncoming (a.recvPhase env.now dgram).1 env (a.recvPhase env.now dgram).2).2
+  rw [r1] at h3 h4 h5
+  refine ⟨f2.trans (h1.trans r2), f3.trans (h2.trans r3), ?_, ?_, ?_⟩
+  · intro t ht; rw [f1]; exact h3 t ht
+  · intro t; rw [f1]; exact h4 t
+  · intro t e' h he; rw [f1] at h; exact h5 t e' h he
+
+/-- **The tick keeps the invariant**: after the part of a tick that follows `recv_from` — whatever
+    datagram arrived, or none — nobody waits on nothing. -/
+theorem afterRecv_waits (a : Actor) (hw : Waits a) (env : Env) (dgram : Option (Message × Addr)) :
+    Waits (a.afterRecv env dgram) := by
+  unfold afterRecv finishTick
+  obtain ⟨p1, p2, p3, p4, p5⟩ := preDone_frame a env dgram
+  generalize a.preDone env dgram = a3 at p1 p2 p3 p4 p5
+  obtain ⟨v1, v2, v3, v4⟩ := visitClosestAll_frame a3 env.now
+  generalize a3.checkDonePuts env.now = dp0
+  generalize hv : a3.visitClosestAll env.now = a4 at v1 v2 v3 v4
+  generalize a4.doneLookups env.now = di
+  obtain ⟨s1, s2, s3, s4, s5, s6, _⟩ := startPuts_spec env.now di (a4, dp0)
+  have hsp : startPuts a4 env.now di dp0 = di.foldl (startPutOne env.now) (a4, dp0) := rfl
+  rw [hsp]
+  generalize di.foldl (startPutOne env.now) (a4, dp0) = sp at s1 s2 s3 s4 s5 s6
+  obtain ⟨c1, c2, c3⟩ := cleanupDone_spec sp.1.core di sp.2
+  generalize cleanupDone sp.1.core di sp.2 = cd at c1 c2 c3
+  -- the ping touches nothing we look at
+  have hping : ∀ (b : Actor) (to : Option Addr), (b.pingOpt to env.now).core = b.core ∧
+      (b.pingOpt to env.now).getSenders = b.getSenders ∧ (b.pingOpt to env.now).putSenders = b.putSenders := by
+    intro b to; unfold pingOpt; split <;> exact ⟨rfl, rfl, rfl⟩
+  obtain ⟨g1, g2, g3⟩ := hping { sp.1 with core := cd.1 } cd.2
+  obtain ⟨rg1, rg2, rg3⟩ := releaseGet_spec (pingOpt { sp.1 with core := cd.1 } cd.2 env.now) di
+  obtain ⟨rp1, rp2, rp3⟩ := releasePut_spec
+    (releaseGetCallers (pingOpt { sp.1 with core := cd.1 } cd.2 env.now) di) sp.2
+  have hcore : (releasePutCallers (releaseGetCallers (pingOpt { sp.1 with core := cd.1 } cd.2 env.now) di) sp.2).core = cd.1 := by
+    rw [rp1, rg1, g1]
+  refine ⟨?_, ?_, ?_⟩
+  · -- getWaits
+    intro t ht
+    rw [rp2] at ht
+    obtain ⟨hg, hnd⟩ := (rg3 t).1 ht
+    rw [g2] at hg
+    simp only at hg
+    rw [s2] at hg
+    simp only at hg
+    rw [v2, p1] at hg
+    have h1 := hw.getWaits t hg
+    rw [hcore]
+    refine (c1 t).2 ⟨?_, hnd⟩
+    rw [s1]
+    exact (v4 t).2 (p3 t h1)
+  · -- putWaits
+    intro t e' he' hempty
+    rw [hcore] at he' ⊢
+    by_cases hdp : t ∈ sp.2.map (·.1)
+    · rw [c3 t hdp] at he'; cases he'
+    · rw [c2 t hdp] at he'
+      by_cases hdi : t ∈ di.map (·.1)
+      · rcases s6 t hdi e' he' with h | h
+        · exact absurd hempty h
+        · exact absurd h hdp
+      · rw [s5 t hdi] at he'
+        simp only at he'
+        rw [v1] at he'
+        have h0 := p5 t e' he' hempty
+        have h1 := hw.putWaits t e' h0 hempty
+        refine (c1 t).2 ⟨?_, hdi⟩
+        rw [s1]
+        exact (v4 t).2 (p3 t h1)
+  · -- callerWaits
+    intro t ht
+    obtain ⟨hp, hnd⟩ := (rp3 t).1 ht
+    rw [rg2, g3] at hp
+    simp only at hp
+    rw [s3] at hp
+    simp only at hp
+    rw [v3, p2] at hp
+    have h1 := hw.callerWaits t hp
+    rw [hcore]
+    unfold hasKey
+    rw [c2 t hnd]
+    have : hasKey sp.1.core.puts t := by
+      rw [s4]; simp only; rw [v1]; exact (p4 t).2 h1
+    exact this
+
+/-! ### the invariant is kept by the message pick-up -/
+
+theorem checkConcurrency_spec (c : Core) (spec : PutSpec) :
+    (checkConcurrency c spec).1.iter = c.iter ∧ (checkConcurrency c spec).1.cache = c.cache ∧
+    ((checkConcurrency c spec).2.isSome = true → (checkConcurrency c spec).1 = c) ∧
+    (∀ t, t ≠ spec.target → alGet (checkConcurrency c spec).1.puts t = alGet c.puts t) ∧
+    (∀ e', alGet (checkConcurrency c spec).1.puts spec.target = some e' → alGet c.puts spec.target = some e') := by
+  cases spec with
+  | putMutable target v k seq sig salt cas =>
+    simp only [checkConcurrency, PutSpec.target]
+    split
+    · split
+      · split
+        · exact ⟨rfl, rfl, fun _ => rfl, fun t _ => rfl, fun e' h => h⟩
+        · split
+          · exact ⟨rfl, rfl, fun _ => rfl, fun t _ => rfl, fun e' h => h⟩
+          · split
+            · split
+              · refine ⟨rfl, rfl, fun h => by simp at h, fun t ht => alGet_alRemove_other _ _ _ ht, ?_⟩
+                intro e' h
+                simp only at h
+                rw [alGet_alRemove_self] at h; cases h
+              · exact ⟨rfl, rfl, fun _ => rfl, fun t _ => rfl, fun e' h => h⟩
+            · exact ⟨rfl, rfl, fun _ => rfl, fun t _ => rfl, fun e' h => h⟩
+      · exact ⟨rfl, rfl, fun _ => rfl, fun t _ => rfl, fun e' h => h⟩
+    · exact ⟨rfl, rfl, fun _ => rfl, fun t _ => rfl, fun e' h => h⟩
+  | announcePeer _ _ _ => exact ⟨rfl, rfl, fun _ => rfl, fun t _ => rfl, fun e' h => h⟩
+  | announceSignedPeer _ _ _ _ => exact ⟨rfl, rfl, fun _ => rfl, fun t _ => rfl, fun e' h => h⟩
+  | putImmutable _ _ => exact ⟨rfl, rfl, fun _ => rfl, fun t _ => rfl, fun e' h => h⟩
+
+/-- what an accepted put leaves behind: a registered put for the target that either has requests out
+    or waits on a registered lookup; nothing else moves -/
+structure PutAccepted (a a' : Actor) (target : Id) : Prop where
+  getSenders : a'.getSenders = a.getSenders
+  putSenders : a'.putSenders = a.putSenders
+  iterMono : ∀ t, hasKey a.core.iter t → hasKey a'.core.iter t
+  registered : ∃ e, alGet a'.core.puts target = some e ∧ (e.q.inflight = [] → hasKey a'.core.iter target)
+  others : ∀ t, t ≠ target → alGet a'.core.puts t = alGet a.core.puts t
+  shape : Shape a'.core
+
+theorem registerPut_spec (a : Actor) (target : Id) (entry : PutEntry) :
+    (registerPut a target entry).getSenders = a.getSenders ∧ (registerPut a target entry).putSenders = a.putSenders ∧
+    (registerPut a target entry).core.iter = a.core.iter ∧ (registerPut a target entry).core.cache = a.core.cache ∧
+    alGet (registerPut a target entry).core.puts target = some entry ∧
+    (∀ t, t ≠ target → alGet (registerPut a target entry).core.puts t = alGet a.core.puts t) :=
+  ⟨rfl, rfl, rfl, rfl, alGet_alSet_self _ _ _, fun t ht => alGet_alSet_other _ _ _ _ ht⟩
+
+/-- `Actor::put` after the concurrency check never fails when the shape invariant holds (a fresh
+    cache entry always offers a node to write to — this is where the proof forced the `valid_token`
+    repair), and registers the put -/
+theorem putAfterCheck_spec (a : Actor) (hs : Shape a.core) (spec : PutSpec) (extra : List Node) (now : Nat) :
+    (a.putAfterCheck spec extra now).2 = .ok () ∧
+    PutAccepted a (a.putAfterCheck spec extra now).1 spec.target := by
+  obtain ⟨gs, gn⟩ := getCached_shape a.core hs spec.target now
+  obtain ⟨g1, g2, g3, g4, g5, _⟩ := getCached_fields a.core spec.target now
+  unfold putAfterCheck
+  cases hc : (getCachedClosestNodes a.core spec.target now).2 with
+  | some closest =>
+    simp only
+    obtain ⟨hok, hany⟩ := gn closest hc
+    generalize hb : ({ a with core := (getCachedClosestNodes a.core spec.target now).1 } : Actor) = b
+    have hbcore : b.core = (getCachedClosestNodes a.core spec.target now).1 := by rw [← hb]
+    have hbg : b.getSenders = a.getSenders := by rw [← hb]
+    have hbp : b.putSenders = a.putSenders := by rw [← hb]
+    obtain ⟨f1, f2, f3, f4, f5, f6⟩ := startPut_frame b (newPutEntry spec extra) closest now
+    have hstart : (startPut b (newPutEntry spec extra) closest now).2.2 = .ok () := by
+      rw [f6]; exact start_succeeds _ rfl _ _ _ hok hany
+    obtain ⟨sc1, sc2⟩ := startPut_core b (newPutEntry spec extra) closest now
+    unfold putFromCache
+    rw [hstart]
+    simp only
+    obtain ⟨r1, r2, r3, r4, r5, r6⟩ := registerPut_spec (startPut b (newPutEntry spec extra) closest now).1 spec.target
+      (startPut b (newPutEntry spec extra) closest now).2.1
+    refine ⟨trivial, ⟨r1.trans (f3.trans hbg), r2.trans (f4.trans hbp), ?_, ?_, ?_, ?_⟩⟩
+    · intro t ht; rw [r3, f1, hbcore, g4]; exact ht
+    · refine ⟨_, r5, ?_⟩
+      intro hempty
+      exfalso
+      rw [f5] at hempty
+      exact start_ok_started _ _ _ _ (by rw [← f6]; exact hstart) hempty
+    · intro t ht; rw [r6 t ht, f2, hbcore, g5]
+    · exact ⟨by rw [r3, sc1, hbcore]; exact gs.lookups, by rw [r4, sc2, hbcore]; exact gs.cache⟩
+  | none =>
+    simp only
+    generalize hb : ({ a with core := (getCachedClosestNodes a.core spec.target now).1 } : Actor) = b
+    have hbcore : b.core = (getCachedClosestNodes a.core spec.target now).1 := by rw [← hb]
+    have hbg : b.getSenders = a.getSenders := by rw [← hb]
+    have hbp : b.putSenders = a.putSenders := by rw [← hb]
+    obtain ⟨q1, q2, q3, q4, q5⟩ := get_frame b (GetKind.ofPut spec) spec.target [] now
+    have qs := get_shape b (by rw [hbcore]; exact gs) (GetKind.ofPut spec) spec.target [] now
+    obtain ⟨r1, r2, r3, r4, r5, r6⟩ := registerPut_spec (b.get (GetKind.ofPut spec) spec.target [] now).1 spec.target
+      (newPutEntry spec extra)
+    refine ⟨trivial, ⟨r1.trans (q2.trans hbg), r2.trans (q3.trans hbp), ?_, ?_, ?_, ?_⟩⟩
+    · intro t ht; rw [r3]; apply q4; rw [hbcore, g4]; exact ht
+    · exact ⟨_, r5, fun _ => by rw [r3]; exact q5⟩
+    · intro t ht; rw [r6 t ht, q1, hbcore, g5]
+    · exact ⟨by rw [r3]; exact qs.lookups, by rw [r4]; exact qs.cache⟩
+
+/-- both invariants together -/
+structure Good (a : Actor) : Prop where
+  waits : Waits a
+  shape : Shape a.core
+
+theorem hasKey_of_alGet {β} (l : List (Id × β)) (k : Id) (v : β) (h : alGet l k = some v) : hasKey l k := by
+  unfold hasKey; rw [h]; rfl
+
+/-- **The pick-up of an API message keeps the invariants** — whatever the call and whatever is
+    already in flight (this is where overlapping calls on equal and different targets meet). -/
+theorem pickup_good (a : Actor) (hg : Good a) (env : Env) (msg : Option ApiMsg) : Good (a.pickup env msg) := by
+  obtain ⟨hw, hs⟩ := hg
+  unfold pickup
+  split
+  · exact ⟨hw, hs⟩
+  · exact ⟨hw, hs⟩
+  · exact ⟨⟨hw.getWaits, hw.putWaits, hw.callerWaits⟩, hs⟩
+  · -- put
+    rename_i c spec extra
+    obtain ⟨k1, k2, k3, k4, k5⟩ := checkConcurrency_spec a.core spec
+    unfold pickupPut Actor.put
+    cases hcc : (checkConcurrency a.core spec).2 with
+    | some e =>
+      simp only
+      have : (checkConcurrency a.core spec).1 = a.core := k3 (by rw [hcc]; rfl)
+      rw [this]
+      exact ⟨⟨hw.getWaits, hw.putWaits, hw.callerWaits⟩, hs⟩
     | none =>
       simp only
-      obtain ⟨i1, i2, i3⟩ := ih a
-      refine ⟨i1, i2, ?_⟩
-      intro t
-      rw [i3 t]
-      simp only [List.map_cons, List.mem_cons, not_or]
-      constructor
-      · rintro ⟨h1, h2⟩
-        refine ⟨h1, ?_, h2⟩
-        intro e; subst e
-        unfold hasKey at h1; rw [hg] at h1; cases h1
-      · rintro ⟨h1, _, h3⟩; exact ⟨h1, h3⟩
-    | some cs =>
+      generalize hb : ({ a with core := (checkConcurrency a.core spec).1 } : Actor) = b
+      have hbcore : b.core = (checkConcurrency a.core spec).1 := by rw [← hb]
+      have hbg : b.getSenders = a.getSenders := by rw [← hb]
+      have hbp : b.putSenders = a.putSenders := by rw [← hb]
+      have hbs : Shape b.core := by rw [hbcore]; exact shape_of_eq _ _ hs k1 k2
+      obtain ⟨hok, hacc⟩ := putAfterCheck_spec b hbs spec extra env.now
+      rw [hok]
       simp only
-      obtain ⟨i1, i2, i3⟩ := ih { a with putSenders := alRemove a.putSenders d.1,
-        events := a.events ++ cs.map fun c => Event.putResult c (putOutcome d) }
-      refine ⟨i1, i2, ?_⟩
-      intro t
-      rw [i3 t]
-      simp only [hasKey_alRemove, List.map_cons, List.mem_cons, not_or]
-      constructor
-      · rintro ⟨⟨h1, h2⟩, h3⟩; exact ⟨h2, h1, h3⟩
-      · rintro ⟨h1, h2, h3⟩; exact ⟨⟨h2, h1⟩, h3⟩
+      obtain ⟨e, he, hewait⟩ := hacc.registered
+      refine ⟨⟨?_, ?_, ?_⟩, hacc.shape⟩
+      · intro t ht
+        have : hasKey a.getSenders t := by
+          simp only [parkPutCaller] at ht; rw [hacc.getSenders, hbg] at ht; exact ht
+        apply hacc.iterMono
+        rw [hbcore, k1]
+        exact hw.getWaits t this
+      · intro t e' he' hempty
+        simp only [parkPutCaller] at he' ⊢
+        by_cases ht : t = spec.target
+        · subst ht
+          rw [he] at he'
+          injection he' with he'
+          subst he'
+          exact hewait hempty
+        · rw [hacc.others t ht, hbcore, k4 t ht] at he'
+          apply hacc.iterMono
+          rw [hbcore, k1]
+          exact hw.putWaits t e' he' hempty
+      · intro t ht
+        simp only [parkPutCaller] at ht ⊢
+        by_cases htt : t = spec.target
+        · subst htt; exact hasKey_of_alGet _ _ _ he
+        · rw [hasKey_alSet] at ht
+          rcases ht with h | h
+          · exact absurd h htt
+          · rw [hacc.putSenders, hbp] at h
+            have := hw.callerWaits t h
+            unfold hasKey
+            rw [hacc.others t htt, hbcore, k4 t htt]
+            exact this
+  · -- get
+    rename_i kind target sender
+    unfold pickupGet
+    obtain ⟨q1, q2, q3, q4, q5⟩ := get_frame a kind target [] env.now
+    have qs := get_shape a hs kind target [] env.now
+    refine ⟨⟨?_, ?_, ?_⟩, qs⟩
+    · intro t ht
+      simp only [parkGetCaller] at ht ⊢
+      rw [hasKey_alSet] at ht
+      rcases ht with rfl | h
+      · exact q5
+      · rw [q2] at h; exact q4 t (hw.getWaits t h)
+    · intro t e' he' hempty
+      simp only [parkGetCaller] at he' ⊢
+      rw [q1] at he'
+      exact q4 t (hw.putWaits t e' he' hempty)
+    · intro t ht
+      simp only [parkGetCaller] at ht ⊢
+      rw [q3] at ht
+      rw [q1]
+      exact hw.callerWaits t ht
+
+/-- maintenance only ever adds lookups -/
+theorem maintenance_good (a : Actor) (hg : Good a) (now : Nat) : Good (a.maintenance now) := by
+  have hpop : ∀ b : Actor, Good b → Good (b.populate now) := by
+    intro b ⟨hw, hs⟩
+    obtain ⟨p1, p2, p3, p4⟩ := populate_frame b now
+    refine ⟨⟨?_, ?_, ?_⟩, populate_shape b hs now⟩
+    · intro t ht; rw [p2] at ht; exact p4 t (hw.getWaits t ht)
+    · intro t e' he' hempty; rw [p1] at he'; exact p4 t (hw.putWaits t e' he' hempty)
+    · intro t ht; rw [p3] at ht; rw [p1]; exact hw.callerWaits t ht
+  unfold maintenance
+  have h1 : Good (a.bootstrapIfEmpty now) := by
+    unfold bootstrapIfEmpty; split
+    · exact hpop a hg
+    · exact hg
+  have h2 : Good ((a.bootstrapIfEmpty now).refreshTable now) := by
+    unfold refreshTable
+    split
+    · apply hpop
+      obtain ⟨hw, hs⟩ := h1
+      unfold adaptiveSwitch
+      split
+      · exact ⟨⟨hw.getWaits, hw.putWaits, hw.callerWaits⟩, ⟨hs.lookups, hs.cache⟩⟩
+      · exact ⟨⟨hw.getWaits, hw.putWaits, hw.callerWaits⟩, ⟨hs.lookups, hs.cache⟩⟩
+    · exact h1
+  generalize (a.bootstrapIfEmpty now).refreshTable now = b at h2
+  unfold pingTable
+  split
+  · have hfold : ∀ (l : List Addr) (x : Actor), (l.foldl (fun a addr => a.ping addr now) x).core = x.core ∧
+        (l.foldl (fun a addr => a.ping addr now) x).getSenders = x.getSenders ∧
+        (l.foldl (fun a addr => a.ping addr now) x).putSenders = x.putSenders := by
+      intro l
+      induction l with
+      | nil => intro x; exact ⟨rfl, rfl, rfl⟩
+      | cons y ys ih =>
+        intro x
+        simp only [List.foldl_cons]
+        obtain ⟨i1, i2, i3⟩ := ih (x.ping y now)
+        exact ⟨i1, i2, i3⟩
+    obtain ⟨f1, f2, f3⟩ := hfold (pingRound { b.core with lastPing := now } now).2
+      { b with core := (pingRound { b.core with lastPing := now } now).1 }
+    obtain ⟨hw, hs⟩ := h2
+    refine ⟨⟨?_, ?_, ?_⟩, ?_⟩
+    · intro t ht; rw [f2] at ht; rw [f1]; exact hw.getWaits t ht
+    · intro t e' he' hempty; rw [f1] at he' ⊢; exact hw.putWaits t e' he' hempty
+    · intro t ht; rw [f3] at ht; rw [f1]; exact hw.callerWaits t ht
+    · rw [f1]; exact ⟨hs.lookups, hs.cache⟩
+  · exact h2
+
+/-- **One iteration of the actor loop keeps the invariants.** -/
+theorem step_good (a : Actor) (hg : Good a) (env : Env) (dgram : Option (Message × Addr)) (msg : Option ApiMsg) :
+    Good (a.step env dgram msg) := by
+  unfold Actor.step
+  have h1 : Good (a.afterRecv env dgram) := ⟨afterRecv_waits a hg.waits env dgram, afterRecv_shape a hg.shape env dgram⟩
+  have h2 := pickup_good _ h1 env msg
+  have h3 := maintenance_good _ h2 env.now
+  exact ⟨⟨h3.waits.getWaits, h3.waits.putWaits, h3.waits.callerWaits⟩, ⟨h3.shape.lookups, h3.shape.cache⟩⟩
+
+theorem fresh_good (core : Core) (m : Bool) (h1 : core.iter = []) (h2 : core.puts = []) (h3 : core.cache.items = []) :
+    Good { sockServerMode := m, core := core } := by
+  refine ⟨⟨?_, ?_, ?_⟩, ⟨?_, ?_⟩⟩
+  · intro t ht; cases ht
+  · intro t e' he'; rw [h2] at he'; cases he'
+  · intro t ht; cases ht
+  · intro p hp; rw [h1] at hp; cases hp
+  · intro p hp; rw [h3] at hp; cases hp
+
+theorem good_of_sock (a : Actor) (h : Good a) (s : Inflight) : Good { a with sock := s } :=
+  ⟨⟨h.waits.getWaits, h.waits.putWaits, h.waits.callerWaits⟩, ⟨h.shape.lookups, h.shape.cache⟩⟩
+
+/-- a freshly created node -/
+theorem create_good (cfg : NodeConfig) (seed : UInt64) (now : Nat) : Good (Actor.create cfg seed now) := by
+  unfold Actor.create
+  split <;>
+  · simp only
+    apply good_of_sock
+    apply maintenance_good
+    exact fresh_good _ _ rfl rfl rfl
+
+/-- **Every reachable state.** Whatever datagrams arrive (lost, duplicated, reordered, delayed, forged),
+    whenever the clock advances, whatever API calls are queued and however they overlap: after any
+    number of loop iterations every parked caller waits on registered work and every registered put
+    that has sent nothing waits on a registered lookup. -/
+theorem reachable_good (cfg : NodeConfig) (seed : UInt64) (t0 : Nat)
+    (steps : List (Env × Option (Message × Addr) × Option ApiMsg)) :
+    Good (steps.foldl (fun a s => a.step s.1 s.2.1 s.2.2) (Actor.create cfg seed t0)) := by
+  have : ∀ (l : List (Env × Option (Message × Addr) × Option ApiMsg)) (a : Actor), Good a →
+      Good (l.foldl (fun a s => a.step s.1 s.2.1 s.2.2) a) := by
+    intro l
+    induction l with
+    | nil => intro a h; exact h
+    | cons s ss ih => intro a h; simp only [List.foldl_cons]; exact ih _ (step_good a h s.1 s.2.1 s.2.2)
+  exact this steps _ (create_good cfg seed t0)
 
 end Mainline.Props.C06
